@@ -524,7 +524,7 @@ func runCase(c caseT) {
 
 // ---------------------------------------------------------------- case generation
 
-var frameLimits = []int{1, 125, 1024, 32768}
+var frameLimits = []int{1, 125, 1024, 32768, 65536, 1 << 17} // (the last two: frames in the 64-bit length class, one of exactly 65536 bytes)
 
 func pickLen(rng *rand.Rand, mf int) int {
 	if mf <= 0 {
@@ -568,7 +568,7 @@ func genCase(i int, big bool) caseT {
 	}
 	c.RefLevel = -2 + rng.Intn(12)
 	c.FragSeed = rng.Int63()
-	c.Cfg.MaxFrame = []int{1, 125, 1024, 32768, 0}[rng.Intn(5)]
+	c.Cfg.MaxFrame = []int{1, 125, 1024, 32768, 0, 65536}[rng.Intn(6)]
 	c.Cfg.MsgLimit = []int{0, 1 << 26}[rng.Intn(2)]
 	total := 0
 	if big {
